@@ -16,6 +16,7 @@ from ..core import VERIF_ROOT
 from ..runner import PY, shard_env
 
 LEVEL = "exploration"
+TECHNIQUE = 'runtime monitoring: whole-space enumeration (5,878,656 tokenizers) compared as a multiset of parameter digests with an explicit-loop reference enumeration; name/hash uniqueness, cross-process hash tables over PYTHONHASHSEED values, save/load and identity-after-use on a covering set'
 RULE = ("the whole space is enumerated in both tiers: get_all_tokenizers() (5,878,656 objects) is compared as a multiset of 16-byte "
         "digests of each tokenizer's parameters (read back from the object's attributes) with an explicit nested-loop reference "
         "enumeration of the documented validity rules (exactly once, nothing else, predicted size 9*216*1008*3); all names are "
